@@ -88,6 +88,18 @@ example : (kronList (qubitTermFactors 3 [(0, 2), (2, 3)] ⟨2, 0⟩)).get (beInd
     Spec.C07.ampP [(0, 2), (2, 3)] 0b100 0b101 = ⟨0, -1⟩ := by
   refine ⟨by decide +kernel, by decide +kernel⟩
 
+/-! ### coordinate assembly -/
+
+/-- `coo_assembly_sound`: the final `coo_matrix((values, (rows, cols))).tocsc()` +
+`eliminate_zeros()` step (`canonEntries`: sort, sum duplicates, drop zeros) keeps every dense entry
+of the collected triplets — the assembled matrix is the sum of the term matrices — and stores no
+explicit zero. -/
+theorem coo_assembly_sound (es : List (Nat × Nat × GQ)) (r c : Nat) :
+    getL (canonEntries es) r c = getL es r c ∧ ∀ e ∈ canonEntries es, e.2.2 ≠ 0 :=
+  canonEntries_get es r c
+
+example : canonEntries [(1, 0, ⟨1, 0⟩), (0, 1, ⟨2, 0⟩), (1, 0, ⟨-1, 0⟩)] = [(0, 1, ⟨2, 0⟩)] := by decide +kernel
+
 /-! ### `LinearQubitOperator._matvec` -/
 
 /-- `matvec_sound`, term level: for a Pauli string `t` on qubits `< n` and *every* vector `x` of
